@@ -118,6 +118,10 @@ class Position(NamedTuple):
                 break
 
         if target_line_index == -1:
+            # At the end of the text: either at the end of an unterminated
+            # last line or on a new, empty line.
+            if lines and not lines[-1].endswith("\n"):
+                return len(lines), len(lines[-1]) + 1
             return len(lines) + 1, 1
 
         # 1-based
